@@ -1,4 +1,4 @@
-import Confuse.Lemmas.Quiet
+import Confuse.Lemmas.NoDepM
 /-!
 # C06 — every rejection is reported; an accepted parse says nothing but deprecation notices
 
@@ -36,11 +36,28 @@ theorem C06_accepted_only_notices (orc : Oracle) (c : Cfg) (text : Bytes) (k0 : 
     (hacc : (parseToks orc (startPM c text k0) ts).status ≠ .rejected) :
     ∀ d ∈ (parseToks orc (startPM c text k0) ts).diags, isDep d.cls = true := by
   have h := parseToks_quiet orc ts (startPM c text k0) hacc
-  have h0 : nd (startPM c text k0) = [] := rfl
+  have h0 : nd isDep (startPM c text k0) = [] := rfl
   rw [h0] at h
   intro d hd
   simp only [nd, List.filter_eq_nil_iff] at h
   simpa using h d hd
+
+/-- **C06 (accepted ⇒ silent), as the property words it.**  When no option of the schema — at any
+depth, declared or instantiated — carries the DEPRECATED flag, a parse that does not end rejected
+delivers no diagnostic at all.  (`ndDecls`: the declaration tree has no DEPRECATED flag; the invariant
+`NDM` — no frame's tree has one — is kept by every step: `pstep_ndm`.) -/
+theorem C06_accepted_silent (orc : Oracle) (decls : List Decl) (flags : Flags) (text : Bytes) (ts : List LTok)
+    (hnd : ndDecls decls = true)
+    (hacc : (parseToks orc (startPM (cfgInit decls flags) text 0) ts).status ≠ .rejected) :
+    (parseToks orc (startPM (cfgInit decls flags) text 0) ts).diags = [] :=
+  parseToks_silent orc ts _ (startPM_ndm _ text 0 (cfgInit_nd decls flags hnd)) hacc
+
+/-- the same from any context whose tree is free of the flag (a context that was parsed into
+before, modified through the API, …) -/
+theorem C06_accepted_silent_any (orc : Oracle) (c : Cfg) (text : Bytes) (k0 : Nat) (ts : List LTok) (hnd : ndCfg c = true)
+    (hacc : (parseToks orc (startPM c text k0) ts).status ≠ .rejected) :
+    (parseToks orc (startPM c text k0) ts).diags = [] :=
+  parseToks_silent orc ts _ (startPM_ndm c text k0 hnd) hacc
 
 /-- … and a deprecation notice is only ever issued for a current option carrying the DEPRECATED flag -/
 theorem C06_notice_needs_flag (f : Frame) (h : (depEffect f).1 ≠ []) :
@@ -137,6 +154,10 @@ example : ((parseToks okOrc exStart [(.str [112], 0), (.eq, 0), (.str [120], 0)]
 -- `f ( )` for a function option without a function: the exemption
 example : ((parseToks okOrc exStart [(.str [102], 0), (.lparen, 0), (.rparen, 0)]).status,
     rep (parseToks okOrc exStart [(.str [102], 0), (.lparen, 0), (.rparen, 0)])) = (.rejected, 0) := by decide +kernel
+-- the schema of these examples has no deprecated option (hypothesis of `C06_accepted_silent`) …
+example : ndDecls exDecls = true := by decide
+-- … and one that has is told apart
+example : ndDecls [.mk { name := [100], ty := .int } { deprecated := true } []] = false := by decide
 -- `a = 1` then end of input: accepted, silent
 example : ((parseToks okOrc exStart [(.str [97], 0), (.eq, 0), (.str [49], 0), (.eof, 0)]).status,
     (parseToks okOrc exStart [(.str [97], 0), (.eq, 0), (.str [49], 0), (.eof, 0)]).diags.length) = (.accepted, 0) := by decide +kernel
